@@ -36,7 +36,9 @@ def make_spec(ops, style, ftypes, generic=False, entry="attr", names="f", bound=
     if not ftypes and bound and bound.startswith("field"):
         bound = None
     return {"ops": ops, "style": style, "ftypes": ftypes, "generic": generic, "entry": entry, "names": names,
-            "bound": bound, "bfield": (bfield % len(ftypes)) if ftypes else 0}
+            "bound": bound, "bfield": (bfield % len(ftypes)) if ftypes else 0,
+            # Debug co-derived, with #[debug(ignore)] on field `bfield`: the operators still act on that field
+            "co": bool(ftypes) and (bfield * 7 + len(ftypes) + len(ops)) % 5 == 0}
 
 
 def fname(spec, i):
@@ -54,12 +56,17 @@ def type_text(spec):
         g = "<" + ", ".join(ps) + ">"
     b = spec.get("bound") or ""
     arg = "bound(..)" if b.endswith("(..)") else "bound()"
-    tl = ", ".join(f"{o}({arg})" if b.startswith("trait") else o for o in spec["ops"]) + (f", {arg}" if b.startswith("common") else "")
+    els = [f"{o}({arg})" if b.startswith("trait") else o for o in spec["ops"]]
+    if spec.get("co"):
+        els = els + ["Debug"] if len(spec["ops"]) % 2 else ["Debug"] + els
+    tl = ", ".join(els) + (f", {arg}" if b.startswith("common") else "")
     if b.startswith("field"):
         fl = ", ".join(o if b == "field-bare" else f"{o}({arg})" for o in spec["ops"])
         fattr = {spec["bfield"]: f"#[derive_ex({fl})] "}
     else:
         fattr = {}
+    if spec.get("co"):
+        fattr[spec["bfield"]] = fattr.get(spec["bfield"], "") + "#[debug(ignore)] "
     head = f"#[::derive_ex::derive_ex({tl})]\n" if spec["entry"] == "attr" else f"#[derive(::derive_ex::Ex)]\n#[derive_ex({tl})]\n"
     if spec["style"] == "unit":
         return head + "pub struct Ty;"
@@ -143,7 +150,7 @@ def control(spec):
     t = type_text(spec)
     t = "\n".join(l for l in t.splitlines() if not l.startswith("#["))
     import re
-    t = re.sub(r"#\[derive_ex\(.*?\)\] ", "", t)
+    t = re.sub(r"#\[derive_ex\(.*?\)\] ", "", t).replace("#[debug(ignore)] ", "")
     g = ""
     if spec["generic"]:
         ps = sorted({x for x in spec["ftypes"] if x in ("T", "U")})
